@@ -276,11 +276,12 @@ func (e *ev) renderBlock(b *blockDef, name string, pos int) {
 	if e.depth > 40 {
 		leave("block recursion")
 	}
-	prevCur, prevName := e.cur, e.name
+	prevCur, prevName, prevOutside := e.cur, e.name, e.outside
 	e.cur = &curBlock{name: name, pos: pos}
 	e.name = b.origin
+	e.outside = false // a block rendered by block() or parent() renders the blocks nested in it
 	e.run(b.n.Body)
-	e.cur, e.name = prevCur, prevName
+	e.cur, e.name, e.outside = prevCur, prevName, prevOutside
 	e.depth--
 }
 
@@ -414,7 +415,10 @@ func (e *ev) node(n *N) {
 		e.set(n.S, e.expr(n.X))
 	case "setcap":
 		e.sh.feature("setcap")
+		outside := e.outside
+		e.outside = false // a capture renders the blocks written inside it
 		s := e.capture(func() { e.run(n.Body) })
+		e.outside = outside
 		e.set(n.S, Str(s))
 	case "filter":
 		e.sh.feature("filter-section")
